@@ -291,7 +291,14 @@ def handle (j : Json) : Except String Json := do
   -- the property: whatever the editor signed and wrote loads, describes the written files, and every listed target downloads
   -- (what the client sees is what the program put in: the targets of every role with length and digest, the
   -- delegation tree with key ids, thresholds and versions — `treeOf` is the program read as plain assignments)
-  let spec := if ifinal then iload == "ok" && describes && (writtenDesc || !finalOk) && (treeOk || !finalOk) && (List.range nnames).all fun t =>
+  -- publication through `copy_target` / `link_target`: every listed target is placed where the client looks for it,
+  -- and a file with other content offered under a listed name is refused
+  let publishedL : List String := match optField impl "published" with
+    | some (Json.arr a) => a.toList.map fun x => (match x with | Json.str s => s | _ => "")
+    | _ => []
+  let publishedOk := publishedL.all fun s => s == "ok" || s == "unlisted"
+  let wrongRefused := match optField impl "wrong_content_refused" with | some (Json.bool b) => b | _ => true
+  let spec := if ifinal then iload == "ok" && describes && (writtenDesc || !finalOk) && (treeOk || !finalOk) && publishedOk && wrongRefused && (List.range nnames).all fun t =>
       let d := downloads.getD t ""
       d == "unlisted" || d == "identical" || needsEscape.getD t false
     else true
